@@ -12,5 +12,5 @@ package ipv4
 //@ func (*endpoint).WritePacket props C06 C11
 //@   requires e != nil && r != nil && e.linkEP != nil
 //@   requires 0 <= hdr.usedIdx && hdr.usedIdx <= len(hdr.buf) && hdr.usedIdx >= header.IPv4MinimumSize && len(hdr.buf) <= 1 << 40 && 0 <= payload.size && payload.size <= 1 << 40
-//@   requires len(r.LocalAddress) == 4 && len(r.RemoteAddress) == 4
+//@   requires len(r.LocalAddress) == 4 && len(r.RemoteAddress) == 4 && len(ids) == buckets
 //@   modifies everything()
